@@ -1,9 +1,687 @@
 //! World P: the real `cteepbd` binary over a simulated disk (DESIGN §3.1 S2-S4).
+//!
+//! An *incarnation* is one process: argv, entropy seed (hash schedule of the whole process), fault
+//! plan for its tracked system calls. A *history* is a disk image plus a sequence of incarnations
+//! over it. Everything is data: replay does not call any generator.
+
+use std::collections::BTreeMap;
+use std::io::Read;
+use std::path::{Path, PathBuf};
+use std::sync::atomic::{AtomicU64, Ordering};
+use std::time::{Duration, Instant};
+
+use serde::{Deserialize, Serialize};
+
+use crate::engine::Ctx;
+use crate::faults::Blob;
+use crate::rng::{Fnv, Rng};
+
+#[derive(Clone, Debug, PartialEq, Serialize, Deserialize)]
+pub enum PlanKind {
+    Eintr,
+    Short(u64),
+    Err(i32),
+    Crash,
+}
+
+#[derive(Clone, Debug, PartialEq, Serialize, Deserialize)]
+pub struct PlanEntry {
+    pub idx: u64,
+    pub kind: PlanKind,
+}
+
+#[derive(Clone, Debug, PartialEq, Serialize, Deserialize)]
+pub struct Incarnation {
+    pub argv: Vec<String>,
+    pub entropy: u64,
+    pub plan: Vec<PlanEntry>,
+    /// Run the debug-profile binary (panics unwind; integer overflow checks on).
+    pub debug_build: bool,
+}
+
+/// State of the simulated disk before the first incarnation.
+#[derive(Clone, Debug, Default, PartialEq, Serialize, Deserialize)]
+pub struct DiskImage {
+    pub files: Vec<(String, Blob)>,
+    pub dirs: Vec<String>,
+    /// Files made read-only (mode 0444) — note: the simulator runs as root, for which file modes are
+    /// not enforced, so this is only used when the harness is not root.
+    pub readonly: Vec<String>,
+}
+
+impl DiskImage {
+    pub fn with_file(mut self, name: &str, content: Blob) -> Self {
+        self.files.retain(|(n, _)| n != name);
+        self.files.push((name.to_string(), content));
+        self
+    }
+    pub fn get(&self, name: &str) -> Option<&Blob> {
+        self.files.iter().find(|(n, _)| n == name).map(|(_, b)| b)
+    }
+}
+
+#[derive(Clone, Debug, PartialEq)]
+pub struct TraceLine {
+    pub idx: u64,
+    pub call: String,
+    pub fd: i64,
+    pub path: String,
+    pub req: i64,
+    pub res: i64,
+    pub errno: i32,
+    pub fault: String,
+}
+
+#[derive(Clone, Debug)]
+pub struct Outcome {
+    pub exit: Option<i32>,
+    pub signal: Option<i32>,
+    pub timed_out: bool,
+    /// stderr contained `panicked at` (the process was killed by the harness if it kept running).
+    pub panicked: bool,
+    pub panic_site: String,
+    pub stdout: Vec<u8>,
+    pub stderr: Vec<u8>,
+    pub trace: Vec<TraceLine>,
+}
+
+impl Outcome {
+    pub fn crashed_by_plan(&self) -> bool {
+        self.trace.last().map(|t| t.fault == "crash").unwrap_or(false)
+    }
+    pub fn faults_fired(&self) -> Vec<String> {
+        self.trace
+            .iter()
+            .filter(|t| t.fault != "-")
+            .map(|t| {
+                if t.fault == "err" {
+                    format!("{}:{}", t.call, errno_name(t.errno))
+                } else {
+                    format!("{}:{}", t.call, t.fault)
+                }
+            })
+            .collect()
+    }
+    pub fn status_label(&self) -> String {
+        if self.timed_out {
+            "hang".into()
+        } else if self.panicked {
+            format!("panic({})", self.panic_site)
+        } else if let Some(s) = self.signal {
+            format!("signal({})", s)
+        } else {
+            format!("exit({})", self.exit.unwrap_or(-1))
+        }
+    }
+    pub fn stderr_text(&self) -> String {
+        String::from_utf8_lossy(&self.stderr).into_owned()
+    }
+    pub fn stdout_text(&self) -> String {
+        String::from_utf8_lossy(&self.stdout).into_owned()
+    }
+}
+
+pub fn errno_name(e: i32) -> &'static str {
+    match e {
+        2 => "ENOENT",
+        4 => "EINTR",
+        5 => "EIO",
+        12 => "ENOMEM",
+        13 => "EACCES",
+        21 => "EISDIR",
+        24 => "EMFILE",
+        28 => "ENOSPC",
+        30 => "EROFS",
+        122 => "EDQUOT",
+        _ => "E?",
+    }
+}
+
+pub const ENOENT: i32 = 2;
+pub const EIO: i32 = 5;
+pub const ENOMEM: i32 = 12;
+pub const EACCES: i32 = 13;
+pub const EISDIR: i32 = 21;
+pub const EMFILE: i32 = 24;
+pub const ENOSPC: i32 = 28;
+pub const EROFS: i32 = 30;
+pub const EDQUOT: i32 = 122;
+
+static DISK_COUNTER: AtomicU64 = AtomicU64::new(0);
+
+/// A simulated disk: a private directory on tmpfs, removed on drop.
+pub struct Disk {
+    pub base: PathBuf,
+    pub root: PathBuf,
+    pub ctl: PathBuf,
+}
+
+impl Disk {
+    pub fn create(ctx: &Ctx, image: &DiskImage) -> Disk {
+        let n = DISK_COUNTER.fetch_add(1, Ordering::Relaxed);
+        let base = ctx.disk_root.join(format!("{}", std::process::id())).join(format!("d{}", n));
+        let root = base.join("disk");
+        let ctl = base.join("ctl");
+        let _ = std::fs::remove_dir_all(&base);
+        std::fs::create_dir_all(&root).unwrap_or_else(|e| crate::harness_error(&format!("cannot create simulated disk {}: {}", root.display(), e)));
+        std::fs::create_dir_all(&ctl).unwrap_or_else(|e| crate::harness_error(&format!("cannot create {}: {}", ctl.display(), e)));
+        for d in &image.dirs {
+            let _ = std::fs::create_dir_all(root.join(d));
+        }
+        for (name, content) in &image.files {
+            std::fs::write(root.join(name), content.bytes())
+                .unwrap_or_else(|e| crate::harness_error(&format!("cannot write simulated file {}: {}", name, e)));
+        }
+        Disk { base, root, ctl }
+    }
+    pub fn read(&self, name: &str) -> Option<Vec<u8>> {
+        std::fs::read(self.root.join(name)).ok()
+    }
+    pub fn exists(&self, name: &str) -> bool {
+        self.root.join(name).exists()
+    }
+    pub fn write(&self, name: &str, content: &[u8]) {
+        let _ = std::fs::write(self.root.join(name), content);
+    }
+    /// Names and contents of all regular files, sorted (for fingerprints).
+    pub fn snapshot(&self) -> BTreeMap<String, Vec<u8>> {
+        let mut m = BTreeMap::new();
+        if let Ok(rd) = std::fs::read_dir(&self.root) {
+            for e in rd.flatten() {
+                if e.path().is_file() {
+                    if let Ok(b) = std::fs::read(e.path()) {
+                        m.insert(e.file_name().to_string_lossy().to_string(), b);
+                    }
+                }
+            }
+        }
+        m
+    }
+}
+
+impl Drop for Disk {
+    fn drop(&mut self) {
+        let _ = std::fs::remove_dir_all(&self.base);
+    }
+}
+
+fn render_plan(plan: &[PlanEntry]) -> String {
+    let mut s = String::new();
+    for e in plan {
+        match &e.kind {
+            PlanKind::Eintr => s.push_str(&format!("{} eintr\n", e.idx)),
+            PlanKind::Short(n) => s.push_str(&format!("{} short {}\n", e.idx, n)),
+            PlanKind::Err(errno) => s.push_str(&format!("{} err {}\n", e.idx, errno)),
+            PlanKind::Crash => s.push_str(&format!("{} crash\n", e.idx)),
+        }
+    }
+    s
+}
+
+fn parse_trace(text: &str) -> Vec<TraceLine> {
+    let mut out = Vec::new();
+    for line in text.lines() {
+        // <index> <call> <fd> <path> <req> <res> <errno> <fault>; the path may contain spaces: parse from both ends
+        let parts: Vec<&str> = line.split(' ').collect();
+        if parts.len() < 8 {
+            continue;
+        }
+        let n = parts.len();
+        let path = parts[3..n - 4].join(" ");
+        out.push(TraceLine {
+            idx: parts[0].parse().unwrap_or(0),
+            call: parts[1].to_string(),
+            fd: parts[2].parse().unwrap_or(-1),
+            path,
+            req: parts[n - 4].parse().unwrap_or(0),
+            res: parts[n - 3].parse().unwrap_or(0),
+            errno: parts[n - 2].parse().unwrap_or(0),
+            fault: parts[n - 1].to_string(),
+        });
+    }
+    out
+}
+
+const WATCHDOG: Duration = Duration::from_secs(30);
+
+/// Run one incarnation over the disk.
+pub fn run_incarnation(ctx: &Ctx, disk: &Disk, inc: &Incarnation, seq: usize) -> Outcome {
+    let bin: &Path = if inc.debug_build {
+        ctx.sut_debug.as_deref().unwrap_or_else(|| crate::harness_error("scenario needs the debug CLI binary (--sut-debug)"))
+    } else {
+        ctx.sut_release.as_deref().unwrap_or_else(|| crate::harness_error("scenario needs the release CLI binary (--sut-release)"))
+    };
+    let shim = ctx.shim.as_deref().unwrap_or_else(|| crate::harness_error("scenario needs the LD_PRELOAD shim (--shim)"));
+    let plan_path = disk.ctl.join(format!("plan{}", seq));
+    let trace_path = disk.ctl.join(format!("trace{}", seq));
+    let out_path = disk.ctl.join(format!("stdout{}", seq));
+    let err_path = disk.ctl.join(format!("stderr{}", seq));
+    std::fs::write(&plan_path, render_plan(&inc.plan)).expect("plan file");
+    let _ = std::fs::remove_file(&trace_path);
+    let stdout = std::fs::File::create(&out_path).expect("stdout file");
+    let stderr = std::fs::File::create(&err_path).expect("stderr file");
+    let mut cmd = std::process::Command::new(bin);
+    cmd.args(&inc.argv)
+        .current_dir(&disk.root)
+        .env_clear()
+        .env("LD_PRELOAD", shim)
+        .env("VERIF_ROOT", &disk.root)
+        .env("VERIF_PLAN", &plan_path)
+        .env("VERIF_TRACE", &trace_path)
+        .env("VERIF_ENTROPY", inc.entropy.to_string())
+        .stdin(std::process::Stdio::null())
+        .stdout(stdout)
+        .stderr(stderr);
+    let mut child = match cmd.spawn() {
+        Ok(c) => c,
+        Err(e) => crate::harness_error(&format!("cannot spawn {}: {}", bin.display(), e)),
+    };
+    let t0 = Instant::now();
+    let mut timed_out = false;
+    let mut killed_after_panic = false;
+    let mut polls = 0u64;
+    let status = loop {
+        match child.try_wait() {
+            Ok(Some(st)) => break Some(st),
+            Ok(None) => {}
+            Err(_) => break None,
+        }
+        polls += 1;
+        // after the first 20 ms look at stderr now and then: a debug build that panicked never ends
+        if polls % 64 == 0 && t0.elapsed() > Duration::from_millis(20) {
+            if let Ok(mut f) = std::fs::File::open(&err_path) {
+                let mut s = Vec::new();
+                let _ = f.read_to_end(&mut s);
+                if find_sub(&s, b"panicked at").is_some() {
+                    // give it a moment to finish printing, then end it
+                    std::thread::sleep(Duration::from_millis(30));
+                    let _ = child.kill();
+                    killed_after_panic = true;
+                    break child.wait().ok();
+                }
+            }
+        }
+        if t0.elapsed() > WATCHDOG {
+            let _ = child.kill();
+            timed_out = true;
+            break child.wait().ok();
+        }
+        std::thread::sleep(Duration::from_micros(150));
+    };
+    let stdout = std::fs::read(&out_path).unwrap_or_default();
+    let stderr = std::fs::read(&err_path).unwrap_or_default();
+    let trace = parse_trace(&std::fs::read_to_string(&trace_path).unwrap_or_default());
+    let panicked = find_sub(&stderr, b"panicked at").is_some();
+    let panic_site = if panicked { panic_site_of(&String::from_utf8_lossy(&stderr)) } else { String::new() };
+    use std::os::unix::process::ExitStatusExt;
+    let (exit, signal) = match status {
+        Some(st) => (st.code(), if killed_after_panic || timed_out { None } else { st.signal() }),
+        None => (None, None),
+    };
+    Outcome { exit, signal, timed_out, panicked, panic_site, stdout, stderr, trace }
+}
+
+pub fn find_sub(hay: &[u8], needle: &[u8]) -> Option<usize> {
+    if needle.is_empty() || hay.len() < needle.len() {
+        return None;
+    }
+    hay.windows(needle.len()).position(|w| w == needle)
+}
+
+/// `file:line` from "thread 'main' panicked at src/foo.rs:12:5:".
+pub fn panic_site_of(stderr: &str) -> String {
+    if let Some(p) = stderr.find("panicked at ") {
+        let rest = &stderr[p + "panicked at ".len()..];
+        let tok: String = rest.chars().take_while(|c| !c.is_whitespace() && *c != ',').collect();
+        let tok = tok.trim_end_matches(':');
+        // file:line:col -> file:line
+        let parts: Vec<&str> = tok.split(':').collect();
+        let site = if parts.len() >= 2 { format!("{}:{}", parts[0], parts[1]) } else { tok.to_string() };
+        // reduce registry / absolute paths to crate-relative
+        if let Some(pos) = site.rfind("/src/") {
+            let head = &site[..pos];
+            let crate_dir = head.rsplit('/').next().unwrap_or("");
+            if crate_dir == "repo" || crate_dir.is_empty() {
+                return site[pos + 1..].to_string();
+            }
+            return format!("{}/{}", crate_dir, &site[pos + 1..]);
+        }
+        return site;
+    }
+    "<unknown>".into()
+}
+
+// ---------------------------------------------------------------------------------------------
+// Fault plans
+
+/// Benign plan (set B): EINTR on open/read/write, short reads and writes, at calls of the given kinds.
+/// `shape` is the fault-free trace of the same incarnation (so that faults land on real calls).
+pub fn benign_plan(rng: &mut Rng, shape: &[TraceLine], density: f64) -> Vec<PlanEntry> {
+    let mut plan = Vec::new();
+    let mut shift = 0u64; // every injected EINTR makes the SUT repeat the call: later indices move by one
+    for t in shape {
+        if !rng.chance(density) {
+            continue;
+        }
+        let idx = t.idx + shift;
+        match t.call.as_str() {
+            "open" | "openat" => {
+                plan.push(PlanEntry { idx, kind: PlanKind::Eintr });
+                shift += 1;
+            }
+            "read" | "write" => {
+                if rng.chance(0.4) {
+                    plan.push(PlanEntry { idx, kind: PlanKind::Eintr });
+                    shift += 1;
+                } else if t.res > 1 {
+                    let n = 1 + rng.below((t.res - 1) as u64);
+                    plan.push(PlanEntry { idx, kind: PlanKind::Short(n) });
+                    shift += 1; // the remainder is transferred by one more call
+                    // sometimes shorten the continuation too
+                    if rng.chance(0.3) && (t.res as u64 - n) > 1 {
+                        let n2 = 1 + rng.below(t.res as u64 - n - 1);
+                        plan.push(PlanEntry { idx: idx + 1, kind: PlanKind::Short(n2) });
+                        shift += 1;
+                    }
+                }
+            }
+            _ => {}
+        }
+    }
+    plan
+}
+
+/// One hard fault (set H) on a call of the fault-free shape.
+pub fn hard_fault(rng: &mut Rng, shape: &[TraceLine]) -> Option<(PlanEntry, String)> {
+    let candidates: Vec<&TraceLine> = shape.iter().filter(|t| matches!(t.call.as_str(), "open" | "openat" | "read" | "write")).collect();
+    if candidates.is_empty() {
+        return None;
+    }
+    let t = candidates[rng.usize(candidates.len())];
+    let is_create = (t.req & 0o100) != 0; // O_CREAT
+    let (errno, class) = match t.call.as_str() {
+        "open" | "openat" => {
+            if is_create {
+                (*rng.pick(&[EACCES, ENOSPC, EROFS, ENOENT, EISDIR, EMFILE]), "create")
+            } else {
+                (*rng.pick(&[ENOENT, EACCES, EISDIR, EMFILE, ENOMEM]), "open")
+            }
+        }
+        "read" => (EIO, "read"),
+        _ => (*rng.pick(&[ENOSPC, EIO, EDQUOT]), "write"),
+    };
+    Some((PlanEntry { idx: t.idx, kind: PlanKind::Err(errno) }, format!("{}:{}", class, errno_name(errno))))
+}
+
+/// Digest of an outcome for fingerprints (deterministic parts only).
+pub fn outcome_digest(fp: &mut Fnv, o: &Outcome) {
+    fp.str(&o.status_label());
+    fp.bytes(&o.stdout).bytes(&[0]);
+    fp.bytes(&o.stderr).bytes(&[0]);
+    for t in &o.trace {
+        fp.u64(t.idx).str(&t.call).str(&t.path).u64(t.req as u64).u64(t.res as u64).u64(t.errno as u64).str(&t.fault);
+    }
+}
+
+// ---------------------------------------------------------------------------------------------
+// C10 in the process world: "in another process gives the same results"
 
 use crate::cmp::Scale;
-use crate::engine::{Ctx, Exec, Violation};
-use crate::rng::Fnv;
+use crate::engine::{Exec, Violation};
 
-pub fn c10_process_world(_ctx: &Ctx, _scn: &crate::props::c10::Scn, _sc: &Scale, _ex: &mut Exec, _fp: &mut Fnv) -> Option<Violation> {
+/// Numbers of the plain report (stdout), keyed by line label: a crude but independent reader.
+pub fn report_numbers(stdout: &str) -> BTreeMap<String, Vec<f64>> {
+    let mut m = BTreeMap::new();
+    let start = stdout.find("** Eficiencia energética").unwrap_or(0);
+    let mut section = String::new();
+    for line in stdout[start..].lines() {
+        let l = line.trim();
+        let is_header = l.starts_with("**") || l.starts_with('*') || l.starts_with('+') || (l.ends_with(':') && !l.starts_with('-'));
+        let mut nums = Vec::new();
+        let mut label = String::new();
+        let mut tok = String::new();
+        let flush = |tok: &mut String, nums: &mut Vec<f64>, label: &mut String| {
+            if !tok.is_empty() {
+                let t = tok.trim_end_matches(['.', ',']);
+                let numeric_shape = t.chars().any(|c| c.is_ascii_digit())
+                    && t.chars().all(|c| c.is_ascii_digit() || matches!(c, '.' | '-' | '+' | 'e' | 'E'));
+                match t.parse::<f64>() {
+                    Ok(v) if numeric_shape => nums.push(v),
+                    _ => {
+                        if t == "NaN" || t == "inf" || t == "-inf" {
+                            nums.push(f64::NAN);
+                        } else {
+                            label.push_str(tok);
+                            label.push(' ');
+                        }
+                    }
+                }
+                tok.clear();
+            }
+        };
+        for ch in l.chars() {
+            if ch.is_whitespace() || ch == '=' || ch == ':' {
+                flush(&mut tok, &mut nums, &mut label);
+            } else {
+                tok.push(ch);
+            }
+        }
+        flush(&mut tok, &mut nums, &mut label);
+        if is_header {
+            section = label.trim().to_string();
+        }
+        if !nums.is_empty() {
+            m.insert(format!("{} | {}", section, label.trim()), nums);
+        }
+    }
+    m
+}
+
+pub fn c10_process_world(ctx: &Ctx, scn: &crate::props::c10::Scn, sc: &Scale, ex: &mut Exec, fp: &mut Fnv) -> Option<Violation> {
+    use crate::model::FactorSpec;
+    // CLI arguments equivalent to the library configuration
+    let mut image = DiskImage::default();
+    let mut base_args: Vec<String> = Vec::new();
+    match &scn.cfg.factors {
+        FactorSpec::Loc(l) => {
+            base_args.push("-l".into());
+            base_args.push(l.clone());
+        }
+        FactorSpec::File(t) => {
+            image = image.with_file("factors.csv", Blob::Utf8(t.clone()));
+            base_args.push("-f".into());
+            base_args.push("factors.csv".into());
+        }
+    }
+    if matches!(scn.cfg.factors, FactorSpec::Loc(_)) {
+        for (flag, v) in [("--red1", scn.cfg.red1), ("--red2", scn.cfg.red2)] {
+            if let Some(f) = v {
+                base_args.push(flag.into());
+                for x in f {
+                    base_args.push(format!("{}", x));
+                }
+            }
+        }
+    }
+    base_args.push("-a".into());
+    base_args.push(format!("{}", scn.cfg.area));
+    base_args.push("-k".into());
+    base_args.push(format!("{}", scn.cfg.k_exp));
+    if scn.cfg.load_matching {
+        base_args.push("--load_matching".into());
+    }
+    if !scn.cfg.strip {
+        base_args.push("-F".into());
+    }
+    image = image.with_file("base.csv", Blob::Utf8(scn.base_text.clone()));
+    image = image.with_file("rew.csv", Blob::Utf8(scn.rew_text.clone()));
+    let disk = Disk::create(ctx, &image);
+    let mut results: Vec<(String, Outcome, Option<serde_json::Value>)> = Vec::new();
+    let mut seq = 0;
+    for (name, file) in [("base", "base.csv"), ("rewritten", "rew.csv")] {
+        for &entropy in &scn.proc_seeds {
+            let mut argv = vec!["-c".to_string(), file.to_string()];
+            argv.extend(base_args.iter().cloned());
+            let json_name = format!("r{}.json", seq);
+            argv.push("--json".into());
+            argv.push(json_name.clone());
+            let inc = Incarnation { argv, entropy, plan: Vec::new(), debug_build: false };
+            let out = run_incarnation(ctx, &disk, &inc, seq);
+            seq += 1;
+            outcome_digest(fp, &out);
+            ex.count("process_incarnations", 1);
+            ex.count("tracked_syscalls", out.trace.len() as u64);
+            let json = disk.read(&json_name).and_then(|b| serde_json::from_slice::<serde_json::Value>(&b).ok());
+            results.push((format!("{} text, entropy seed {:#x}", name, entropy), out, json));
+        }
+    }
+    let (ref_name, ref_out, ref_json) = &results[0];
+    for (name, out, json) in results.iter().skip(1) {
+        if out.status_label() != ref_out.status_label() {
+            // rewritten text may legitimately name another file in messages; status must agree
+            return Some(Violation::new(
+                "process_dependence",
+                "status",
+                format!("CLI ended with {} for [{}] but {} for [{}]", ref_out.status_label(), ref_name, out.status_label(), name),
+            ));
+        }
+        if ref_out.exit != Some(0) {
+            continue;
+        }
+        // stdout report, numerically
+        let (a, b) = (report_numbers(&ref_out.stdout_text()), report_numbers(&out.stdout_text()));
+        if a.keys().collect::<Vec<_>>() != b.keys().collect::<Vec<_>>() {
+            return Some(Violation::new(
+                "process_dependence",
+                "report-structure",
+                format!("plain reports of [{}] and [{}] have different lines/tables: {:?} vs {:?}", ref_name, name, a.keys().collect::<Vec<_>>(), b.keys().collect::<Vec<_>>()),
+            ));
+        }
+        let f = [ref_json, json].iter().filter_map(|j| j.as_ref()).map(json_max_factor).fold(1.0f64, f64::max);
+        let den = ref_json
+            .as_ref()
+            .map(|j| {
+                j.pointer("/balance/we/b/ren").and_then(|v| v.as_f64()).unwrap_or(0.0) + j.pointer("/balance/we/b/nren").and_then(|v| v.as_f64()).unwrap_or(0.0)
+            })
+            .unwrap_or(0.0)
+            .abs();
+        for (k, va) in &a {
+            let vb = &b[k];
+            if va.len() != vb.len() {
+                return Some(Violation::new("process_dependence", "report-structure", format!("report line {:?}: {:?} vs {:?}", k, va, vb)));
+            }
+            if k.contains("Porcentaje renovable") {
+                continue; // DHW indicator: compared in the library world with its threshold guards
+            }
+            let is_ratio = k.contains("RER");
+            if is_ratio && !(den > crate::cmp::RATIO_MIN_DEN * sc.e_an * f) {
+                ex.count("skipped_ratio_comparisons", 1);
+                continue;
+            }
+            for (x, y) in va.iter().zip(vb.iter()) {
+                if x.is_nan() && y.is_nan() {
+                    continue;
+                }
+                // printed with <= 2 decimals: one unit of the last digit + the rounding tolerance of DESIGN 3.5
+                let tol = if is_ratio {
+                    0.011 + crate::cmp::C_RATIO * crate::cmp::EPS * sc.e_an * f / den
+                } else {
+                    0.011 + crate::cmp::C_ABS * crate::cmp::EPS * sc.e_an.max(sc.n_an) * f / sc.area.max(1e-9)
+                };
+                if !((x - y).abs() <= tol) {
+                    return Some(Violation::new(
+                        "process_dependence",
+                        "report-number",
+                        format!("report line {:?}: {} for [{}] but {} for [{}] (tol {:e})", k, x, ref_name, y, name, tol),
+                    ));
+                }
+            }
+        }
+        // JSON documents, semantically: whole-building figures
+        match (ref_json, json) {
+            (Some(ja), Some(jb)) => {
+                if let Some(m) = json_balance_mismatch(ja, jb, sc) {
+                    return Some(Violation::new("process_dependence", "json", format!("--json of [{}] vs [{}]: {}", ref_name, name, m)));
+                }
+            }
+            _ => {
+                return Some(Violation::new("process_dependence", "json-missing", format!("--json output missing or invalid for [{}] or [{}]", ref_name, name)));
+            }
+        }
+    }
     None
+}
+
+/// Compare `balance`, `balance_m2` and the ratios of two JSON result documents within the tolerance
+/// of DESIGN §3.5 (plus the 3-decimal rounding of RenNrenCo2 in JSON).
+pub fn json_max_factor(doc: &serde_json::Value) -> f64 {
+    let mut max_factor = 1.0f64;
+    if let Some(ws) = doc.pointer("/wfactors/wdata").and_then(|v| v.as_array()) {
+        for w in ws {
+            for k in ["ren", "nren", "co2"] {
+                if let Some(v) = w.get(k).and_then(|v| v.as_f64()) {
+                    if v.abs() > max_factor {
+                        max_factor = v.abs();
+                    }
+                }
+            }
+        }
+    }
+    max_factor
+}
+
+pub fn json_balance_mismatch(a: &serde_json::Value, b: &serde_json::Value, sc: &Scale) -> Option<String> {
+    let max_factor = json_max_factor(a).max(json_max_factor(b));
+    fn walk(path: &str, a: &serde_json::Value, b: &serde_json::Value, tol: f64, out: &mut Option<String>) {
+        if out.is_some() {
+            return;
+        }
+        match (a, b) {
+            (serde_json::Value::Object(x), serde_json::Value::Object(y)) => {
+                let keys: std::collections::BTreeSet<&String> = x.keys().chain(y.keys()).collect();
+                for k in keys {
+                    let zero = serde_json::Value::from(0.0);
+                    let (va, vb) = (x.get(k).unwrap_or(&zero), y.get(k).unwrap_or(&zero));
+                    walk(&format!("{}.{}", path, k), va, vb, tol, out);
+                }
+            }
+            (serde_json::Value::Number(x), serde_json::Value::Number(y)) => {
+                let (x, y) = (x.as_f64().unwrap_or(f64::NAN), y.as_f64().unwrap_or(f64::NAN));
+                if !((x - y).abs() <= tol) {
+                    *out = Some(format!("{}: {} vs {} (tol {:e})", path, x, y, tol));
+                }
+            }
+            (serde_json::Value::Null, serde_json::Value::Null) => {}
+            (x, y) => {
+                if x != y && !(x.is_number() && y.is_object() || x.is_object() && y.is_number()) {
+                    *out = Some(format!("{}: {} vs {}", path, x, y));
+                }
+            }
+        }
+    }
+    let mut out = None;
+    let tol = crate::cmp::C_ABS * crate::cmp::EPS * sc.e_an.max(sc.n_an) * max_factor + 0.0011;
+    if let (Some(x), Some(y)) = (a.get("balance"), b.get("balance")) {
+        walk("balance", x, y, tol, &mut out);
+    }
+    let area = if sc.area > 0.0 { sc.area } else { 1.0 };
+    if let (Some(x), Some(y)) = (a.get("balance_m2"), b.get("balance_m2")) {
+        walk("balance_m2", x, y, tol / area + 0.0011, &mut out);
+    }
+    // ratios
+    let den = |j: &serde_json::Value| {
+        (j.pointer("/balance/we/b/ren").and_then(|v| v.as_f64()).unwrap_or(0.0) + j.pointer("/balance/we/b/nren").and_then(|v| v.as_f64()).unwrap_or(0.0)).abs()
+    };
+    let d = den(a).min(den(b));
+    if out.is_none() && d > crate::cmp::RATIO_MIN_DEN * sc.e_an * max_factor {
+        for k in ["rer", "rer_nrb", "rer_onst"] {
+            if let (Some(x), Some(y)) = (a.get(k).and_then(|v| v.as_f64()), b.get(k).and_then(|v| v.as_f64())) {
+                let rtol = crate::cmp::C_RATIO * crate::cmp::EPS * sc.e_an * max_factor / d + 0.0011 / d.max(1.0);
+                if !((x - y).abs() <= rtol) {
+                    out = Some(format!("{}: {} vs {} (tol {:e})", k, x, y, rtol));
+                }
+            }
+        }
+    }
+    out
 }
